@@ -27,7 +27,7 @@ import (
 func init() { Register("C15", c15Parent, c15Child) }
 
 func c15Parent(r *ev.Run) {
-	r.Rule = "transactions with 1-4 named inserts; names placed in scalar / optional / set / map-key / map-value / map-key-and-value uuid positions of row values, in conditions (incl. _uuid), in mutation arguments, before and after the defining insert, with and without explicit uuid; strings equal to names in string columns; distinct = (positions in which names were used, forward/backward, explicit/assigned uuid, operation kinds)"
+	r.Rule = "transactions with 1-4 named inserts; names placed in scalar / optional / set / map-key / map-value / map-key-and-value uuid positions of row values, in conditions (incl. _uuid), in mutation arguments, in the rows of zero-timeout wait operations, before and after the defining insert, with and without explicit uuid; strings equal to names in string columns; distinct = (positions in which names were used, forward/backward, explicit/assigned uuid, operation kinds)"
 	r.Assume("reference columns used here are plain uuid or weak references so that referential integrity does not reject the transactions of interest")
 	r.RunBatches(ev.BatchOpts{N: r.N(16, 64)})
 }
@@ -221,6 +221,35 @@ func (g *c15gen) txn(db *ref.DB) []ref.Op {
 		}
 		ops = append(ops[:pos], append([]ref.Op{op}, ops[pos:]...)...)
 	}
+	// sometimes: a zero-timeout wait on a row inserted under a name, whose expected
+	// rows repeat the (named) values given to the insert: it must succeed
+	if g.p.Chance(1, 3) {
+		var idxs []int
+		for i, o := range ops {
+			if o.Kind == "insert" {
+				idxs = append(idxs, i)
+			}
+		}
+		at := idxs[g.p.Intn(len(idxs))]
+		ins := ops[at]
+		t := g.s.Table(ins.Table)
+		var cols []string
+		row := ref.Row{}
+		for _, c := range t.Cols[1:] {
+			if d, ok := ins.Row[c.Name]; ok && g.p.Chance(2, 3) {
+				cols = append(cols, c.Name)
+				row[c.Name] = d.Clone()
+			}
+		}
+		if len(cols) > 0 {
+			zero := 0
+			w := ref.Op{Kind: "wait", Table: ins.Table, Timeout: &zero, Until: "==", Columns: cols, Rows: []ref.Row{row},
+				Where: []ref.Cond{{Col: "_uuid", Fn: "==", Val: ref.Set(ref.UUID(ins.UUIDName))}}}
+			// directly after the insert: nothing has touched the row yet
+			ops = append(ops[:at+1], append([]ref.Op{w}, ops[at+1:]...)...)
+			g.used["wait-rows"] = true
+		}
+	}
 	// sometimes: a second insert claiming an existing name
 	if g.p.Chance(1, 8) {
 		t := g.s.Tables[g.p.Intn(2)]
@@ -365,6 +394,13 @@ func c15Expand(m *dyn.Model, ops []ref.Op) []finding {
 				check(i, "mutation", t, mu.Col, mu.Val, exp[i].Mutations[j].Value)
 			}
 		}
+		for j, row := range op.Rows {
+			if j < len(exp[i].Rows) {
+				for cn, d := range row {
+					check(i, "wait-rows", t, cn, d, exp[i].Rows[j][cn])
+				}
+			}
+		}
 		if op.Kind == "insert" && exp[i].UUID != names[op.UUIDName] {
 			fs = append(fs, finding{"C15/expand/insert-uuid", fmt.Sprintf("op %d insert named %s carries uuid %s after expansion, expected %s", i, op.UUIDName, exp[i].UUID, names[op.UUIDName])})
 		}
@@ -405,6 +441,9 @@ func c15Step(m *dyn.Model, e *txn.Engine, pre *ref.DB, ops []ref.Op, r *ev.Run, 
 		return fs
 	}
 	if rep.Failed {
+		if i := rep.FailIndex; i >= 0 && i < len(ops) && ops[i].Kind == "wait" && rep.FailErr == "timed out" && !out.Failed() {
+			return append(fs, finding{"C15/wait/times-out-although-the-named-row-matches", fmt.Sprintf("operation %d: wait on a row inserted under a name, with the values given to that insert, times out: a name in its condition or rows was not resolved", i)})
+		}
 		if r != nil {
 			if out.Failed() {
 				r.Count("rejected_by_both", 1)
